@@ -1,3 +1,4 @@
+import Cactus.Lemmas.Contract
 import Cactus.Lemmas.Once
 import Cactus.Lemmas.NoErr
 import Cactus.Lemmas.Final
@@ -103,5 +104,49 @@ theorem C02_destroyed_and_released_at_most_once {s : State} (h : Reachable s) :
 
 theorem C02_run_at_most_once (ops : List (Op × List Nat)) :
     (run ops).destroyedVids.Nodup ∧ (run ops).freedIds.Nodup := run_once ops
+
+
+/-! ## With the syntactic hypothesis of `C01_contract_respecting_histories` -/
+
+/-- **C02 for every contract-respecting history** (no bare `adopt`, no bare `take`, also inside
+destructor scripts): at every point of the execution the machine is error-free or has stopped for
+one of the three reasons that are not library faults — out of fuel, or one of the two documented
+aborts.  In particular never `uaf`, `movedLinks`, `movedValue`, `doubleFree`, `underflow`,
+`corrupt`, `dangling`. -/
+theorem C02_contract_respecting_histories {s : State} (h : ReachableC s) : s.okErr := by
+  induction h with
+  | init => exact Or.inl rfl
+  | @op s o hint hr hq _ ih =>
+    cases he : s.err with
+    | none =>
+      have hp := hr.reachableP he
+      have hI : (s.begin hint).Inv := begin_inv s hint (reachable_Inv hp.reachable)
+      have hR : (s.begin hint).InvR := begin_invR s hint (reachable_InvR hp.reachable he)
+      have hS : (s.begin hint).InvS := begin_invS s hint (reachableP_invS hp)
+      exact applyOp_okErr _ o hI hR hS he
+    | some e =>
+      have h1 : (s.begin hint).err = some e := he
+      have h2 := applyOp_err_of_some (s.begin hint) o h1
+      rcases ih with h | h | h
+      · rw [he] at h; cases h
+      · right; left; rw [h2]; rw [he] at h; exact h
+      · right; right; rw [h2]; rw [he] at h; exact h
+  | @step s hr ih =>
+    cases he : s.err with
+    | none =>
+      have hp := hr.reachableP he
+      exact step_okErr s (reachable_Inv hp.reachable) (reachable_InvR hp.reachable he)
+        (reachableP_invS hp) (reachableP_P hp) (reachableP_scriptOK hp) he
+    | some e =>
+      rw [step_of_err he]; exact ih
+  | @endOp s _ ih =>
+    unfold State.okErr at *
+    rw [endOp_err]; exact ih
+  | @outOfFuel s _ ih =>
+    cases he : s.err with
+    | none => right; left; exact fail_err_of_none s .fuel he
+    | some e =>
+      unfold State.okErr at *
+      rw [fail_err_of_some s .fuel e he]; rw [he] at ih; exact ih
 
 end Cactus
